@@ -332,6 +332,14 @@ def _accumulations(stmts: list) -> list:
             if not isinstance(s, ast.For) or s.orelse:
                 continue
             fb = _loop_filter_body(s.body)
+            if fb is not None and isinstance(fb[1], ast.Assign) and len(fb[1].targets) == 1 and isinstance(fb[1].targets[0], ast.Subscript) \
+                    and isinstance(fb[1].targets[0].value, ast.Name):
+                r = _dict_accumulation(out, j, fb)
+                if r is not None:
+                    out = r
+                    changed = True
+                    break
+                continue
             if fb is None:
                 r = _set_accumulation(out, j)
                 if r is not None:
@@ -394,6 +402,32 @@ def _accumulations(stmts: list) -> list:
             changed = True
             break
     return out
+
+
+def _dict_accumulation(out: list, j: int, fb):
+    """`x = {}` ... `for t in it: [if c:] x[k] = v`  ->  `x = {k: v for t in it if c}`"""
+    s = out[j]
+    conds, act = fb
+    x = act.targets[0].value.id
+    k, v = act.targets[0].slice, act.value
+    if x in _target_names(s.target) or mentions(x, [s.iter, k, v] + conds):
+        return None
+    i = j - 1
+    while i >= 0 and not mentions(x, out[i]):
+        i -= 1
+    if i < 0:
+        return None
+    nm, val = _single_name_assign(out[i])
+    empty = (isinstance(val, ast.Dict) and not val.keys) or \
+        (isinstance(val, ast.Call) and isinstance(val.func, ast.Name) and val.func.id == 'dict' and not val.args and not val.keywords)
+    if nm != x or not empty:
+        return None
+    gen = ast.comprehension(target=s.target, iter=s.iter, ifs=([_and(conds, s)] if conds else []), is_async=0)
+    new = at(ast.Assign(targets=[ast.Name(id=x, ctx=ast.Store())], value=ast.DictComp(key=k, value=v, generators=[gen])), s)
+    res = list(out)
+    res[j] = new
+    del res[i]
+    return res
 
 
 def _set_accumulation(out: list, j: int):
